@@ -1335,6 +1335,32 @@ func (s *fstate) extern(in *ssa.Call, f *ssa.Function, args []ObjSet, cs map[Obj
 			spec, ok = externSpec{}, true
 		}
 	}
+	if !ok && strings.HasPrefix(name, "slices.") {
+		// package slices (generic: the name carries the type arguments)
+		base := name
+		if i := strings.Index(base, "["); i >= 0 {
+			base = base[:i]
+		}
+		switch base {
+		case "slices.Sort", "slices.Reverse":
+			spec, ok = externSpec{writes: []int{0}}, true
+		case "slices.Contains", "slices.Index", "slices.Max", "slices.Min", "slices.Equal", "slices.IsSorted", "slices.BinarySearch":
+			spec, ok = externSpec{}, true
+		case "slices.IndexFunc", "slices.ContainsFunc":
+			spec, ok = externSpec{callsArgs: true}, true
+		case "slices.Clip":
+			spec, ok = externSpec{retRecv: true}, true
+		case "slices.Clone":
+			// a fresh backing array; its elements are copies of the argument's (what they point
+			// to, if anything, is shared)
+			spec, ok = externSpec{}, true
+			if len(in.Call.Args) == 1 {
+				if st, isS := in.Call.Args[0].Type().Underlying().(*types.Slice); isS && ptrLike(st.Elem()) {
+					spec = externSpec{aliasRet: []int{0}}
+				}
+			}
+		}
+	}
 	if !ok && name == "sort.IsSorted" && len(in.Call.Args) == 1 {
 		// read-only when the argument is one of package sort's own slice adapters (their Len and
 		// Less only read); for any other implementation the callee's methods are not summarised
